@@ -330,9 +330,9 @@ func (c *Ctx) rawSenderRule(rule string) {
 				continue
 			}
 			nSend++
-			ok := fn == a.Raw && !op.InSelect
+			ok := fn == c.rawBody() && !op.InSelect
 			why := "plain send in " + c.FuncKey(fn)
-			if fn != a.Raw {
+			if fn != c.rawBody() {
 				why = "send on the outbound queue outside Raw's own body (in " + c.FuncKey(fn) + ")"
 			} else if op.InSelect {
 				why = "send inside a select: a line may take another path (dropped or re-ordered)"
@@ -343,7 +343,7 @@ func (c *Ctx) rawSenderRule(rule string) {
 	r.Exactly(rule, "send sites on the outbound queue", nSend, 1)
 	// Raw must send on every path
 	if a.Raw != nil {
-		ok, bad := AllPathsFromEntryPass(a.Raw, func(in ssa.Instruction) bool {
+		ok, bad := AllPathsFromEntryPass(c.rawBody(), func(in ssa.Instruction) bool {
 			s, ok := in.(*ssa.Send)
 			return ok && c.ChanMayBe(s.Chan, a.Out)
 		})
@@ -471,7 +471,7 @@ func (c *Ctx) enqueueIdentityRule(rule string) {
 			ab := fl.At(v, op.In.Block())
 			ok, why := false, "enqueued value is not Raw's parameter cut at CR/LF (abstract: "+ab.String()+")"
 			if ab.Cut != nil && ab.Cut.Seps == crlf {
-				if pr, isP := ab.Cut.Src.(*ssa.Parameter); isP && (pr.Parent() == a.Raw || c.paramOfVia(pr, a.Raw)) {
+				if pr, isP := ab.Cut.Src.(*ssa.Parameter); isP && (pr.Parent() == c.rawBody() || c.paramOfVia(pr, c.rawBody())) {
 					ok, why = true, "value = rawline cut at the first of {CR,LF}: unchanged for CR/LF-free lines"
 				}
 			}
@@ -1741,4 +1741,10 @@ func reachableAvoiding(fn *ssa.Function, step ssa.Instruction) map[ssa.Instructi
 	}
 	visit(fn.Blocks[0])
 	return seen
+}
+
+// rawBody: the function in which Raw does its work: Raw itself, or the
+// unexported method it forwards to when it is kept as a thin wrapper.
+func (c *Ctx) rawBody() *ssa.Function {
+	return c.followForward(c.A.Raw)
 }
